@@ -475,8 +475,8 @@ pub fn scenario_of(ctx: &Ctx, run: u64) -> Option<Scenario> {
         "C12" => {
             let mut rng = Rng::derive(ctx.seed, run, "c12");
             let initial_hash = *rng.pick(&[1usize, 1, 2, 3, 16]);
-            let (script, _) = gen_c12_script(&mut rng, ctx.thorough(), run % 3 == 2);
-            Some(Scenario::A(ScenarioA { script, knobs: Knobs { initial_hash_mb: Some(initial_hash), ..Knobs::default() }, clock_events: vec![], sched_seed: Rng::derive(ctx.seed, run, "c12.sched.base").next_u64(), schedule: None }))
+            let (script, _) = gen_c12_script(&mut rng, ctx.thorough(), run % 3 == 2, run % 12 == 2);
+            Some(Scenario::A(ScenarioA { script, knobs: Knobs { initial_hash_mb: Some(initial_hash), resend_position: run % 12 != 2, ..Knobs::default() }, clock_events: vec![], sched_seed: Rng::derive(ctx.seed, run, "c12.sched.base").next_u64(), schedule: None }))
         }
         "C14" => Some(Scenario::A(gen_c14(ctx, run))),
         "C09" => Some(if run % 8 == 7 { Scenario::A(gen_c09_a(ctx, run)) } else { Scenario::B(gen_c09(ctx, run).base) }),
@@ -1212,7 +1212,8 @@ pub fn gen_c14(ctx: &Ctx, run: u64) -> ScenarioA {
             }
             let white = side_to_move_is_white(&cur.0, &cur.1);
             if rng.chance(1, 8) {
-                script.push(Intent::SetOption { name: "Move Overhead".into(), value: "0".into() });
+                // "a fixed move time is used as given", whatever the configured overhead
+                script.push(Intent::SetOption { name: "Move Overhead".into(), value: rng.pick(&["0", "0", "1", "50", "300", "1000"]).to_string() });
                 script.push(Intent::Go(GoSpec::movetime(*rng.pick(&[0u64, 1, 10, 100, 1_000, 60_000, 86_400_000]))));
             } else {
                 let (g, overhead) = gen_c14_tuple(&mut rng, white);
@@ -1249,6 +1250,10 @@ pub fn gen_c14(ctx: &Ctx, run: u64) -> ScenarioA {
                 g.wtime = opp;
             }
             g.movestogo = *rng.pick(&[None, None, Some(1u32), Some(2), Some(5), Some(40)]);
+            // a GUI configured with both a clock and a depth cap sends both: the clock still binds
+            if rng.chance(1, 5) {
+                g.depth = Some(rng.range(20, 60) as u8);
+            }
             let overhead = if rng.chance(1, 2) { 0 } else { rng.range(0, (r / 2).min(1_000)) };
             script.push(Intent::SetOption { name: "Move Overhead".into(), value: overhead.to_string() });
             script.push(Intent::Go(g));
@@ -1305,11 +1310,11 @@ pub fn search_transcript(out: &OutcomeA) -> Vec<String> {
         .collect()
 }
 
-fn gen_c12_script(rng: &mut Rng, thorough: bool, with_newgame: bool) -> (Vec<Intent>, Option<usize>) {
+fn gen_c12_script(rng: &mut Rng, thorough: bool, with_newgame: bool, bare_go_after_newgame: bool) -> (Vec<Intent>, Option<usize>) {
     let mut script = Vec::new();
     let mut newgame_at = None;
     if rng.chance(1, 3) {
-        script.push(Intent::SetOption { name: "Hash".into(), value: rng.pick(&["1", "2", "3", "4"]).to_string() });
+        script.push(Intent::SetOption { name: "Hash".into(), value: rng.pick(&["0", "1", "2", "3", "4"]).to_string() });
     }
     let n = rng.range(2, if thorough { 9 } else { 6 });
     let cut = if with_newgame { rng.range(1, n - 1) } else { u64::MAX };
@@ -1318,13 +1323,15 @@ fn gen_c12_script(rng: &mut Rng, thorough: bool, with_newgame: bool) -> (Vec<Int
             newgame_at = Some(script.len());
             script.push(Intent::UciNewGame);
             if rng.chance(1, 4) {
-                script.push(Intent::SetOption { name: "Hash".into(), value: rng.pick(&["1", "2", "3"]).to_string() });
+                script.push(Intent::SetOption { name: "Hash".into(), value: rng.pick(&["0", "1", "2", "3"]).to_string() });
             }
         } else if rng.chance(1, 8) && !with_newgame {
             script.push(Intent::UciNewGame);
         }
         if rng.chance(1, 4) && i > 0 && i != cut {
             script.push(Intent::PlayBest);
+        } else if i == cut && bare_go_after_newgame {
+            // a bare `go` right after `ucinewgame`: a fresh engine searches the start position
         } else {
             let (fen, moves) = gen_position(rng, false);
             script.push(Intent::Position { fen, moves });
@@ -1393,12 +1400,14 @@ pub fn run_c12(ctx: &Ctx, run: u64) -> RunReport {
         return rep;
     }
     let newgame_mode = run % 3 == 2;
-    let (script, newgame_at) = gen_c12_script(&mut rng, ctx.thorough(), newgame_mode);
+    // in a quarter of the newgame runs the GUI sends a bare `go` after `ucinewgame` (no `position`)
+    let bare_go = run % 12 == 2;
+    let (script, newgame_at) = gen_c12_script(&mut rng, ctx.thorough(), newgame_mode, bare_go);
     let n_env = if ctx.thorough() { 6 } else { 3 };
     // base environment: plain clock, uniform scheduler, shipped interval
     let base = ScenarioA {
         script: script.clone(),
-        knobs: Knobs { initial_hash_mb: Some(initial_hash), ..Knobs::default() },
+        knobs: Knobs { initial_hash_mb: Some(initial_hash), resend_position: !bare_go, ..Knobs::default() },
         clock_events: vec![],
         sched_seed: Rng::derive(ctx.seed, run, "c12.sched.base").next_u64(),
         schedule: None,
@@ -1473,6 +1482,7 @@ pub fn run_c12(ctx: &Ctx, run: u64) -> RunReport {
         let mut er = Rng::derive(ctx.seed, run, "c12.fresh");
         let (mut knobs, ev) = env_knobs(&mut er);
         knobs.initial_hash_mb = Some(eff);
+        knobs.resend_position = !bare_go;
         let fresh = ScenarioA { script: suffix.clone(), knobs, clock_events: ev, sched_seed: er.next_u64(), schedule: None };
         let fresh_out = run_a(&fresh, false);
         absorb_a(ctx, &mut rep, &fresh, &fresh_out, fresh_out.stats.searches > 0);
